@@ -11,11 +11,13 @@ FragsV == { <<"ta">>, <<"ta", "1">>, <<"ta", "1", "r">>, <<"ta", "1", "rs">>, <<
             <<"ta", "1", "zz">>, <<"ta", "1", "relationships", "zz">>, <<"ta", "1", "rs", "x", "y", "z">>, <<"meta">>,
             <<"ta", "1", "relationships">>, <<"tb", "2", "relationships">>, <<"ta", "1", "rs", "x", "r">>,
             <<"ta", "1", "relationships", "rs", "x">>, <<"td">>, <<"ta", "1", "t">>,
+            <<"e">>, <<"e", "1">>,
             \* five fragments and more, the last one a to-many relationship
             <<"ta", "1", "x", "y", "rs">>, <<"ta", "1", "relationships", "rs", "rs">>, <<"tb", "2", "a", "b", "c", "s">> }
 FieldsV == { <<>>, [ta |-> <<"x">>], [ta |-> <<"x", "y", "r">>], [ta |-> <<"x", "x">>], [ta |-> <<>>],
              [ta |-> <<"id", "zz">>], [ta |-> <<"id">>], [ta |-> <<"id", "x", "id">>], [tb |-> <<"id", "id">>], [tb |-> <<"z">>], [zz |-> <<"a">>], [tc |-> <<"id">>],
              [ta |-> <<"rs", "r">>, tb |-> <<"q", "z", "zz">>], [tc |-> <<"zz">>], [tb |-> <<"z", "s", "z">>], [td |-> <<"q", "w">>, tb |-> <<"z">>],
+             [e |-> <<"v">>], [e |-> <<"id">>, ta |-> <<"x">>],
              \* two names that differ by their case only, in both orders
              [ta |-> <<"X", "x">>], [ta |-> <<"x", "y", "X">>, tb |-> <<"z">>], [ta |-> <<"x", "X", "x">>],
              \* each list names a field of the other type
